@@ -1,3 +1,5 @@
 //! Executable models written from the BIPs / the Miniscript specification.
+pub mod bip32;
 pub mod bip341;
+pub mod descsum;
 pub mod spec_types;
